@@ -40,6 +40,8 @@ pub struct SynOpts {
   /// avoid `#6` / `#6.n` without content
   pub no_bare_tag6: bool,
   pub no_type_tagnum: bool,
+  /// `$$name` only where a group name is expected (bare group entry)
+  pub no_group_socket_in_type_pos: bool,
 }
 
 impl Default for SynOpts {
@@ -59,6 +61,7 @@ impl Default for SynOpts {
       plain_text_only: false,
       no_bare_tag6: false,
       no_type_tagnum: false,
+      no_group_socket_in_type_pos: false,
     }
   }
 }
@@ -103,7 +106,7 @@ impl<'a, 'b, 'o> SynGen<'a, 'b, 'o> {
       _ => {
         if self.o.sockets {
           let i = self.t.below(RULE_NAMES.len());
-          let p = if self.t.flag() { "$" } else { "$$" };
+          let p = if self.t.flag() || self.o.no_group_socket_in_type_pos { "$" } else { "$$" };
           format!("{}{}", p, self.rule_name(i))
         } else {
           "int".to_string()
@@ -340,6 +343,19 @@ impl<'a, 'b, 'o> SynGen<'a, 'b, 'o> {
     Ent { occ: Some(Occ::Opt), kind: EntKind::Val { key: Some(Key::Bare("k".into())), ty: Ty::name("int") } }
   }
 
+  /// type-rule body; `x = $$g` is grammatically ambiguous (type or group rule) and avoided
+  fn type_rule_body(&mut self, d: usize) -> Ty {
+    let mut t = self.ty(d);
+    if t.0.len() == 1 && t.0[0].op.is_none() {
+      if let Ty2::Name { name, .. } = &mut t.0[0].t2 {
+        if name.starts_with("$$") {
+          *name = name[2..].to_string();
+        }
+      }
+    }
+    t
+  }
+
   pub fn schema(&mut self) -> Schema {
     let n = 1 + self.t.below(self.o.max_rules);
     let mut rules = vec![];
@@ -357,7 +373,7 @@ impl<'a, 'b, 'o> SynGen<'a, 'b, 'o> {
         // sockets are normally only extended with /= and //=
         name = format!("{}{}", if is_group { "$$" } else { "$" }, name);
         let params = vec![];
-        let body = if is_group { Body::Grp(self.group_rule_body(d)) } else { Body::Ty(self.ty(d)) };
+        let body = if is_group { Body::Grp(self.group_rule_body(d)) } else { Body::Ty(self.type_rule_body(d)) };
         rules.push(RuleM { name, params, alt: true, body });
         continue;
       }
@@ -368,7 +384,7 @@ impl<'a, 'b, 'o> SynGen<'a, 'b, 'o> {
         vec![]
       };
       self.params = params.clone();
-      let body = if is_group { Body::Grp(self.group_rule_body(d)) } else { Body::Ty(self.ty(d)) };
+      let body = if is_group { Body::Grp(self.group_rule_body(d)) } else { Body::Ty(self.type_rule_body(d)) };
       if alt_of.is_none() {
         defined.push((name.clone(), is_group));
       }
